@@ -74,7 +74,7 @@ Definition ledger : list (site * lclass) := [
   (mk_site "parser/marker.rs" "calc_vertex_angle" KIndex "path[idx + 1]" 0, Reviewed "idx is a vertex index produced by draw_markers (0 <= idx <= len - 1); idx - 1 only when idx >= 1; idx + 1 only in the middle branch idx < len - 1");
   (mk_site "parser/marker.rs" "get_prev_vertex" KIndex "segments[idx - 1]" 0, Reviewed "idx is a vertex index produced by draw_markers (0 <= idx <= len - 1); idx - 1 only when idx >= 1; idx + 1 only in the middle branch idx < len - 1");
   (mk_site "parser/mod.rs" "f32_bound" KDebugAssert "debug_assert!(min.is_finite())" 0, Reviewed "min / max are literals (0, 1 or 1, 128) at all three call sites");
-  (mk_site "parser/mod.rs" "f32_bound" KDebugAssert "debug_assert!(val.is_finite())" 0, Known "f32-bound-debug-assert");
+  (mk_site "parser/mod.rs" "f32_bound" KDebugAssert "debug_assert!(val.is_finite())" 0, Reviewed "callers pass finite values: feColorMatrix `values` come from FromValue for Vec<f32>, which rejects numbers that overflow f32 (fix 8d835b3); specularExponent was range-checked to 1..=128 just before; the stop offset no longer goes through f32_bound (fix 8613502)");
   (mk_site "parser/mod.rs" "f32_bound" KDebugAssert "debug_assert!(max.is_finite())" 0, Reviewed "min / max are literals (0, 1 or 1, 128) at all three call sites");
   (mk_site "parser/options.rs" "default" KUnwrap "default_size: Size::from_wh(100.0, 100.0).unwrap()" 0, ConstArg _ const_rects);
   (mk_site "parser/paint_server.rs" "convert" KUnwrap "let paint = match node.tag_name().unwrap()" 0, Reviewed "the node comes from doc.links (element_by_id) or from HrefIter, which hold elements only; an element has a tag name");
